@@ -305,6 +305,14 @@ def parseEntries (gidMap : List (Nat × List Nat)) : Nat → Nat → Bytes → E
         | .err c => .err c
         | .panic p => .panic p
 
+/-- the record stage of `parse_kdb` (`parse_db`): groups, then entries -/
+def parseDb (numGroups numEntries : Nat) (payload : Bytes) : Outcome (List KNode) :=
+  (parseGroups (payload.length + 1) numGroups payload {}).bind fun (gs, rest) =>
+    if gs.gid.isSome then .err .integrity else
+    let (_, rootCh) := collapse (gs.branch.length + 1) gs.branch 0 gs.rootCh
+    (parseEntries gs.gidMap (rest.length + 1) numEntries rest { rootCh := rootCh }).bind fun (es, _) =>
+      if es.gid.isSome then .err .integrity else .ok es.rootCh
+
 structure DecryptedKdb where
   minor : Nat
   outer : OuterCipher
@@ -345,11 +353,7 @@ def parseKdb (P : Prims) (data : Bytes) (composite : Option (Option Bytes)) : Ou
             let payload := padded.take (padded.length - last.toNat)
             if contentsHash != P.sha256 payload then .err .key
             else do
-              let (gs, rest) ← parseGroups (payload.length + 1) numGroups payload {}
-              if gs.gid.isSome then .err .integrity else
-              let (_, rootCh) := collapse (gs.branch.length + 1) gs.branch 0 gs.rootCh
-              let (es, _) ← parseEntries gs.gidMap (rest.length + 1) numEntries rest { rootCh := rootCh }
-              if es.gid.isSome then .err .integrity
-              else .ok ⟨subversion % 65536, cipher, rounds, es.rootCh⟩
+              let root ← parseDb numGroups numEntries payload
+              .ok ⟨subversion % 65536, cipher, rounds, root⟩
 
 end Kp.Fmt
